@@ -115,6 +115,9 @@ def expected_value(name, spec, provider):
         out = []
         for kk, vv in spec["v"].items():
             vs = vv if isinstance(vv, list) else [vv]
+            if kk.upper() == "UNTIL":      # RFC 5545 3.3.10: a DATE stays a DATE, a floating time stays floating, every aware value is written in UTC
+                vs = [V.dec(u, provider) for u in vs]
+                vs = [u.astimezone(UTC) if isinstance(u, datetime) and u.tzinfo is not None else u for u in vs]
             out.append((kk.upper(), tuple(str(x) for x in vs)))
         return ("r", tuple(sorted(out)))
     if k == "geo":
@@ -466,6 +469,11 @@ EXCL = {"DTEND": {"DURATION", "DTEND", "end"}, "DUE": {"DURATION", "DUE", "end"}
 def cases(draw):
     tree = _clean_text(draw(st.one_of(T.s_tree(2, 3, False, "VCALENDAR"), T.s_tree(2, 3, False), T.s_tree(1, 3, False, "VEVENT"))))
     nodes = list(T.preorder(tree))
+    for n in nodes:      # rules with an UNTIL of every kind an API user may supply (DATE, floating, UTC, zoned - also zones at +00:00)
+        for p in n["p"]:
+            if p[1]["k"] == "recur" and draw(st.integers(0, 1)):
+                p[1]["v"] = {k: v for k, v in p[1]["v"].items() if k != "COUNT"}      # RFC 5545: UNTIL and COUNT exclude each other
+                p[1]["v"]["UNTIL"] = draw(T.s_until)
     setters = []
     for i, n in enumerate(nodes):
         opts = SETTERS.get(n["c"].upper())
